@@ -353,7 +353,38 @@ where
     }
 }
 
+/// C15 (bounded stand-in): the boxed constructors and the O(1) conversions handle an array far larger than the thread's
+/// stack.  Each case runs on a 256 KiB-stack thread of a re-executed child process (a stack overflow kills the child,
+/// not the report).  4 MiB of u8.
+type Big = U4194304;
+const BIG: usize = 4 * 1024 * 1024;
+fn stack_case(k: usize) {
+    let h = std::thread::Builder::new().stack_size(256 * 1024).spawn(move || {
+        let check = |b: &GenericArray<u8, Big>, v: u8| assert!(b.len() == BIG && b[0] == v && b[BIG - 1] == v && b[BIG / 2] == v);
+        match k {
+            0 => { let b = GenericArray::<u8, Big>::default_boxed(); check(&b, 0); }
+            1 => { let b = Box::<GenericArray<u8, Big>>::generate(|_| 7u8); check(&b, 7); }
+            2 => { let b = generic_array::box_arr![9u8; Big]; check(&b, 9); }
+            3 => { let b: Box<GenericArray<u8, Big>> = std::iter::repeat(5u8).take(BIG).collect(); check(&b, 5); }
+            4 => { let b = GenericArray::<u8, Big>::default_boxed(); let v = b.into_vec(); assert!(v.len() == BIG);
+                   let b2 = GenericArray::<u8, Big>::try_from_vec(v).unwrap(); let s = b2.into_boxed_slice(); assert!(s.len() == BIG);
+                   let b3 = GenericArray::<u8, Big>::try_from_boxed_slice(s).unwrap(); check(&b3, 0); }
+            5 => { let b = GenericArray::<u8, Big>::default_boxed(); let n = b.into_iter().filter(|&x| x == 0).count(); assert!(n == BIG); }
+            _ => { let a = Box::<GenericArray<u8, Big>>::generate(|i| i as u8); let m: Box<GenericArray<u8, Big>> = a.map(|x| x.wrapping_add(1)); assert!(m[255] == 0 && m[1] == 2); }
+        }
+    }).unwrap();
+    if h.join().is_err() {
+        std::process::exit(3);
+    }
+}
+const STACK_CASES: [&str; 7] = ["default_boxed", "Box::generate", "box_arr![x; N]", "boxed collect", "into_vec/try_from_vec/into_boxed_slice/try_from_boxed_slice", "Box::into_iter", "map(Box)"];
+
 fn main() {
+    let args: Vec<String> = std::env::args().collect();
+    if args.len() == 3 && args[1] == "--stack-case" {
+        stack_case(args[2].parse().unwrap());
+        return;
+    }
     std::panic::set_hook(Box::new(|_| {}));
     let mut rep = Report { cases: 0, failed: 0 };
     closure_panics::<U0>(&mut rep);
@@ -368,5 +399,17 @@ fn main() {
     index_panics::<U1, U0>(&mut rep);
     index_panics::<U2, U1>(&mut rep);
     index_panics::<U4, U3>(&mut rep);
+    for (k, name) in STACK_CASES.iter().enumerate() {
+        let st = std::process::Command::new(std::env::current_exe().unwrap()).args(["--stack-case", &k.to_string()])
+            .stdout(std::process::Stdio::null()).stderr(std::process::Stdio::null()).status();
+        rep.cases += 1;
+        match st {
+            Ok(s) if s.success() => {}
+            other => {
+                rep.failed += 1;
+                println!("FAIL property=C15 op={} N={} k={} : a 4 MiB array on a 256 KiB-stack thread: child ended with {:?} (stack overflow / abort)", name, BIG, k, other.map(|s| s.to_string()));
+            }
+        }
+    }
     println!("CASES {} FAILED {}", rep.cases, rep.failed);
 }
